@@ -166,9 +166,9 @@ def gen_attempt(r: Any, kn: dict, faults: bool, sync: bool, has_ctx: bool) -> di
 
 
 def malformed_payload(r: Any) -> bytes:
-    c = r.randint(0, 5)
-    if c == 5:
-        return r.choice([b"-1", b"-1", b"", b"null", b"0", b"[]"])      # tiny payloads, incl. the receiver's private end-of-queue marker value
+    c = r.randint(0, 6)
+    if c >= 5:
+        return r.choice([b"-1", b"-1", b"", b"", b"null", b"0", b"[]"])      # tiny payloads, incl. the receiver's private end-of-queue marker value
     if c == 0:
         return bytes(r.randint(0, 255) for _ in range(r.randint(0, 24)))
     if c == 1:
